@@ -35,16 +35,16 @@ int main(int argc, char ** argv) {
     bool dfsmode = std::string(argv[1]) == "c16dfs";     // systematic: every schedule with <= 2 preemptions of each configuration
     int dfs_bound = argc > 5 ? atoi(argv[5]) : 2; uint64_t dfs_max = argc > 6 ? strtoull(argv[6], nullptr, 0) : 400000; uint64_t dfs_exec = 0, dfs_trunc = 0, dfs_cfgs = 0, dfs_maxdepth = 0;
     wd::start();
-    long sessions = 0, nulls = 0, aborts = 0, delivered = 0, left = 0, cap_checks = 0; std::set<uint64_t> sigs; std::string sample;
+    long lowerings = 0; long sessions = 0, nulls = 0, aborts = 0, delivered = 0, left = 0, cap_checks = 0; std::set<uint64_t> sigs; std::string sample;
     for (long idx = from; idx < to; idx++) {
         hc::begin_case(std::to_string(idx));
         wd::arm(dfsmode ? 1200 : 60, "c16c");
         Rng r(Rng::mix(seed ^ 0xC16C, (uint64_t)idx));
-        uint32_t cap = 1 + r.below(3); uint32_t n = r.below(5); int xkind = r.below(5);
-        if (dfsmode) { cap = 1 + (uint32_t)(idx % 3); n = (uint32_t)((idx / 3) % 4); xkind = (int)((idx / 12) % 5); } bool xabort = xkind == 1; bool xfull = xkind == 2; bool xsmall = xkind == 3 && n > 0; bool xraise = xkind == 4; uint32_t capmax = xraise ? cap + 1 + (uint32_t)(idx % 3) : cap;   /* 4: the capacity is raised while the session runs (the producer may be blocked at the old limit), the end is declared once the producer is done */ uint32_t xk = xsmall ? r.below(n) : 0; int xdelay = dfsmode ? 0 : r.below(12);   // X: 0 setFileSize(tellp), 1 abort, 2 setFileSize(n) = total length declared up front
+        uint32_t cap = 1 + r.below(3); uint32_t n = r.below(5); int xkind = r.below(6);
+        if (dfsmode) { cap = 1 + (uint32_t)(idx % 3); n = (uint32_t)((idx / 3) % 4); xkind = (int)((idx / 12) % 5); } bool xabort = xkind == 1; bool xfull = xkind == 2; bool xsmall = xkind == 3 && n > 0; bool xraise = xkind == 4; bool xlower = xkind == 5 && cap >= 2 && n > cap; uint32_t caplow = xlower ? 1 + (uint32_t)(idx % (cap - 1)) : cap;   /* 5: once the queue is full the consumer LOWERS the capacity and only then starts reading: while the queue holds at least the new capacity nothing may be pushed */ uint32_t capmax = xraise ? cap + 1 + (uint32_t)(idx % 3) : cap;   /* 4: the capacity is raised while the session runs (the producer may be blocked at the old limit), the end is declared once the producer is done */ uint32_t xk = xsmall ? r.below(n) : 0; int xdelay = dfsmode ? 0 : r.below(12);   // X: 0 setFileSize(tellp), 1 abort, 2 setFileSize(n) = total length declared up front
         // 3: once the producer is done, a size BELOW the number written is declared (the consumer may already be blocked on the empty queue)
         int strategy = r.chance(3, 4) ? SCHED_RANDOM : SCHED_FAVOUR; int sparam = r.below(3);
-        std::ostringstream cfg; cfg << "cap=" << cap << " n=" << n << " x=" << (xabort ? std::string("abort") : xfull ? std::string("setFileSize(n)") : xsmall ? "after-producer:setFileSize(" + std::to_string(xk) + ")" : xraise ? "setBufferSize(" + std::to_string(capmax) + ");after-producer:setFileSize(tellp)" : std::string("setFileSize(tellp)")) << (idx % 2 ? " spurious" : "") << " delay=" << xdelay << " strategy=" << strategy << "/" << sparam;
+        std::ostringstream cfg; cfg << "cap=" << cap << " n=" << n << " x=" << (xabort ? std::string("abort") : xfull ? std::string("setFileSize(n)") : xsmall ? "after-producer:setFileSize(" + std::to_string(xk) + ")" : xraise ? "setBufferSize(" + std::to_string(capmax) + ");after-producer:setFileSize(tellp)" : xlower ? "when-full:setBufferSize(" + std::to_string(caplow) + ");after-producer:setFileSize(tellp)" : std::string("setFileSize(tellp)")) << (idx % 2 ? " spurious" : "") << " delay=" << xdelay << " strategy=" << strategy << "/" << sparam;
         static std::string ctx; ctx = cfg.str() + " case=" + std::to_string(idx);
         sched_on_violation = [](const char * kind, const char * key, const char * report) {
             std::string rr = report; for (auto & ch : rr) if (ch == '\n') ch = '|';
@@ -70,19 +70,30 @@ int main(int argc, char ** argv) {
             std::thread X([&] {
                 std::mutex m; for (int i = 0; i < xdelay; i++) { std::lock_guard<std::mutex> l(m); }   // scheduling points
                 if (xraise) q.setBufferSize(capmax);
-                if (xsmall || xraise) { std::unique_lock<std::mutex> l(pm); pcv.wait(l, [&] { return pdone; }); }
+                if (xsmall || xraise || xlower) { std::unique_lock<std::mutex> l(pm); pcv.wait(l, [&] { return pdone; }); }
                 xev.op = xabort ? ABORT : SETSIZE; xev.call = sched_steps();
                 if (xabort) q.abort(); else { xev.val = xfull ? n : xsmall ? xk : q.tellp(); q.setFileSize(xev.val); }
                 xev.ret = sched_steps(); xev.done = true;
             });
+            bool lowered = false; std::mutex dm; uint32_t nread = 0;
+            if (xlower) {
+                for (int spins = 0; q.tellp() < cap && spins < 300; spins++) { std::lock_guard<std::mutex> l(dm); }     // scheduling points until the queue is full
+                if (q.tellp() == cap) { q.setBufferSize(caplow); lowered = true; lowerings++; }      // the producer is blocked at the old capacity, or about to find the queue full
+            }
             for (;;) {
+                if (lowered) {
+                    // only this thread reads, so nread is exact: a push needs size < caplow under the queue's mutex, hence tellp <= max(cap, nread + caplow) at any time
+                    for (int j = 0; j < 6; j++) { std::lock_guard<std::mutex> l(dm); }
+                    uint32_t tp = q.tellp();
+                    if (tp > std::max(cap, nread + caplow)) err = "capacity-exceeded-after-lowering";
+                }
                 Ev e; e.op = READ; e.call = sched_steps(); e.done = false;
                 ObjectHeaderBase * o = q.read();
                 e.ret = sched_steps(); e.done = true;
                 if (o) {
                     Tok * t = dynamic_cast<Tok *>(o); e.val = t ? t->id : 0xffffffff;
                     if (!q.good() || q.eof()) err = "flags-after-object";
-                    delete o; rlog.push_back(e);
+                    delete o; rlog.push_back(e); nread++;
                 } else {
                     e.val = 0; rlog.push_back(e);
                     if (q.good() || !q.eof()) err = "flags-after-null";
@@ -138,7 +149,7 @@ int main(int argc, char ** argv) {
     std::string s(sites); long blocked = 0; size_t p = s.find("\"ObjectQueue::write\":"); if (p != std::string::npos) blocked = atol(s.c_str() + p + 21);
     std::ostringstream o;
     o << "{\"sessions\":" << sessions << ",\"distinct_signatures\":" << sigs.size() << ",\"delivered\":" << delivered << ",\"null_results\":" << nulls << ",\"aborts\":" << aborts
-      << ",\"left_for_destructor\":" << left << ",\"capacity_checks\":" << cap_checks << ",\"producer_blocked_at_capacity\":" << blocked << ",\"dfs_configurations\":" << dfs_cfgs << ",\"dfs_executions\":" << dfs_exec << ",\"dfs_truncated_configurations\":" << dfs_trunc << ",\"max_decisions_per_execution\":" << dfs_maxdepth << ",\"blocked_at\":{" << sites << "},\"samples\":[" << hc::jstr(sample) << "]}";
+      << ",\"left_for_destructor\":" << left << ",\"capacity_checks\":" << cap_checks << ",\"capacity_lowered_while_full\":" << lowerings << ",\"producer_blocked_at_capacity\":" << blocked << ",\"dfs_configurations\":" << dfs_cfgs << ",\"dfs_executions\":" << dfs_exec << ",\"dfs_truncated_configurations\":" << dfs_trunc << ",\"max_decisions_per_execution\":" << dfs_maxdepth << ",\"blocked_at\":{" << sites << "},\"samples\":[" << hc::jstr(sample) << "]}";
     hc::stat(o.str());
     return 0;
 }
